@@ -34,7 +34,7 @@ escape_characters = str.maketrans({
 
 
 def _is_valid_field_name(field: DataModelFieldBase) -> bool:
-    name = field.original_name or field.name
+    name = field.name if field.original_name is None else field.original_name
     if name is None:  # pragma: no cover
         return False
     return name.isidentifier() and not keyword.iskeyword(name)
@@ -117,7 +117,8 @@ class DataModelField(DataModelFieldBase):
 
     @property
     def key(self) -> str:
-        return (self.original_name or self.name or "").translate(  # pragma: no cover
+        key = (self.name or "") if self.original_name is None else self.original_name
+        return key.translate(  # pragma: no cover
             escape_characters
         )
 
